@@ -8,6 +8,7 @@ import fractions
 import itertools
 import json
 import math
+import os
 
 from mc.engine import Harness, Result, V
 from mc.world import reset_globals
@@ -84,6 +85,7 @@ def all_configs(tier):
         add('Action', allow_None=an)
         add('Dict', allow_None=an)
         add('XYCoordinates', allow_None=an)
+        add('Filename', allow_None=an)
         for rx in (None, '^a.*$', 'b$', 'ab'):
             add('String', allow_None=an, regex=rx)
             add('Bytes', allow_None=an, regex=rx)
@@ -162,6 +164,14 @@ def materialize(cfg):
                             extra.append(('bnd:(%r,mid)' % (c,), (c, mid) if c <= to_cmp(mid, c) else (mid, c)))
                         except TypeError:
                             pass
+    if pt == 'Filename':
+        from mc import pin
+        sp = os.path.join(pin.VERIF, 'mc')        # deliberately not the working directory of the checks
+        kw['search_paths'] = [sp]
+        sc['_search_paths'] = [sp]
+        import pathlib
+        extra += [("'engine.py'", 'engine.py'), ("'pin.py'", 'pin.py'), ("'nope.txt'", 'nope.txt'), ("Path('engine.py')", pathlib.Path('engine.py')),
+                  ("abs engine.py", os.path.join(sp, 'engine.py')), ("'check' (only in cwd)", 'check'), ("'mc' (a directory)", 'mc')]
     if pt in ('List', 'HookList'):
         kw['bounds'] = cfg['bounds']
         sc['bounds'] = cfg['bounds']
@@ -325,15 +335,15 @@ class C01(Harness):
             elif not accepted and exp == ACCEPT:
                 vs.append(V('rejects-valid', '%s(%s) rejected %s via route %s (%r) although it satisfies the declared constraints' % (
                     pt, _cfgstr(cfg), label, route, exc), **key))
-            elif not accepted and not isinstance(exc, (ValueError, TypeError)):
+            elif not accepted and not isinstance(exc, (ValueError, TypeError) + ((OSError,) if pt == 'Filename' else ())):
                 vs.append(V('wrong-exception', '%s(%s) rejected %s via route %s with %r, not ValueError/TypeError' % (
                     pt, _cfgstr(cfg), label, route, exc), exc=type(exc).__name__, **key))
             elif accepted:
-                same = got_back is v or (route == 'deser' and got_back == v)
+                same = got_back is v or (route == 'deser' and got_back == v) or (pt == 'Filename' and os.path.basename(str(got_back)) == os.path.basename(str(v)))
                 if not same and not _is_copy_ok(pt, route, got_back, v):
                     vs.append(V('read-back', '%s(%s) accepted %s via route %s but reads back %r' % (pt, _cfgstr(cfg), label, route, got_back), **key))
             elif route in ('inst', 'cls', 'update', 'clsupdate'):
-                if got_back is not prev:
+                if got_back is not prev and not (pt == 'Filename' and got_back == prev):
                     vs.append(V('rejected-but-changed', '%s(%s) rejected %s via route %s but the value changed from %r to %r' % (
                         pt, _cfgstr(cfg), label, route, prev, got_back), **key))
         r = Result(vs[:60], nontrivial=nt > 0, outcome='%s/%s' % (pt, route), hits=hits)
